@@ -6,33 +6,37 @@ import NbioVerif.Lemmas.C09Choice
 namespace Resp
 
 /-- a write never reports a panic (only ReadFrom can) -/
-def NoPanic (w : WRes) : Prop := w ≠ .panic
+def NoPanic (w : WRes) : Prop := w ≠ .panic ∧ ∀ n, w ≠ .errCopy n
 
 theorem chunkTail_np (g : Cfg) (r : R) (nb data : Bytes) : NoPanic (chunkTail g r nb data).2 := by
   unfold chunkTail; dsimp only; repeat' split
-  all_goals (intro h; cases h)
+  all_goals exact ⟨(by intro h; cases h), (by intro n h; cases h)⟩
 
 theorem writeChunk_np (g : Cfg) (r : R) (data : Bytes) : NoPanic (writeChunk g r data).2 := by
   unfold writeChunk; dsimp only; repeat' split
-  all_goals first | apply chunkTail_np | (intro h; cases h)
+  all_goals first | apply chunkTail_np | exact ⟨(by intro h; cases h), (by intro n h; cases h)⟩
 
 theorem sendDirect_np (g : Cfg) (r : R) (data : Bytes) : NoPanic (sendDirect g r data).2 := by
   unfold sendDirect; dsimp only; repeat' split
-  all_goals (intro h; cases h)
+  all_goals exact ⟨(by intro h; cases h), (by intro n h; cases h)⟩
 
 theorem appendTail_np (g : Cfg) (r : R) (bb data : Bytes) (cl : Nat) : NoPanic (appendTail g r bb data cl).2 := by
   unfold appendTail; dsimp only; repeat' split
-  all_goals (intro h; cases h)
+  all_goals exact ⟨(by intro h; cases h), (by intro n h; cases h)⟩
 
 theorem appendBody_np (g : Cfg) (r : R) (data : Bytes) (cl : Nat) : NoPanic (appendBody g r data cl).2 := by
   unfold appendBody; dsimp only; repeat' split
-  all_goals first | apply sendDirect_np | apply appendTail_np | (intro h; cases h)
+  all_goals first | apply sendDirect_np | apply appendTail_np | exact ⟨(by intro h; cases h), (by intro n h; cases h)⟩
 
 theorem write_np (g : Cfg) (r : R) (data : Bytes) : (write g r data).2 ≠ .panic := by
   have : NoPanic (write g r data).2 := by
     unfold write writeBody writeIdent; dsimp only; repeat' split
-    all_goals first | apply writeChunk_np | apply appendBody_np | (intro h; cases h)
-  exact this
+    all_goals first | apply writeChunk_np | apply appendBody_np | exact ⟨(by intro h; cases h), (by intro n h; cases h)⟩
+  exact this.1
+
+theorem writeBody_plain (g : Cfg) (r : R) (data : Bytes) : NoPanic (writeBody g r data).2 := by
+  unfold writeBody writeIdent; repeat' split
+  all_goals first | apply writeChunk_np | apply appendBody_np | exact ⟨(by intro h; cases h), (by intro n h; cases h)⟩
 
 /-! ### the prelude `WriteHeader(200); checkChunked()` is idempotent, and Write (of a non-empty payload),
 Flush and flushResponse begin with it -/
